@@ -184,6 +184,8 @@ def class_source(c, out):
     if c.get("base"):
         body.append("super().__init__()")
     for f in c.get("fields", []):
+        if "[" in f["name"]:
+            continue        # pseudo-field: an element of one of the class's lists, named by a constant subscript
         body.append("self.%s = %s" % (f["name"], field_ctor(f)))
     for l in c.get("lists", []):
         mode = l["mode"]
